@@ -168,16 +168,16 @@ func Blocked() int { return 0 }
 // Symbolic reports whether the harness runs under the engine.
 func Symbolic() bool { return false }
 
-func SetMaxLen(n int)        {}
-func SetLoopBudget(n int)    {}
+func SetMaxLen(n int)     {}
+func SetLoopBudget(n int) {}
 
 // SetMaxMaterialise raises the size of the largest slice the engine builds (default 8192 elements).
 func SetMaxMaterialise(n int) {}
-func SetAllocBudget(n int)   {}
-func SetPreempt(n int)       {}
-func CheckPanics(on bool)    {}
-func CheckDeadlock(on bool)  {}
-func MapOrderNondet(on bool) {}
+func SetAllocBudget(n int)    {}
+func SetPreempt(n int)        {}
+func CheckPanics(on bool)     {}
+func CheckDeadlock(on bool)   {}
+func MapOrderNondet(on bool)  {}
 
 // Replace substitutes fn for the named function under the engine (no effect natively: harnesses
 // using it are engine-only).
